@@ -59,15 +59,19 @@ def make_line(np, sparse, lid, kind, engine):
                     logit_coords=[0, lg.shape[0]], transcription_confidence=0.123, index=7)
 
 
-def make_layout(np, sparse, kinds, engine, mixed=False):
+def make_layout(np, sparse, kinds, engine, mixed=False, split=False):
     """mixed: the lines of one page carry different character tables, as the result of an earlier merge of engines with
     different charsets does (merging is applied repeatedly: merge(merge(A, B), C))"""
     from pero_ocr.core.layout import PageLayout, RegionLayout
     pl = PageLayout(id='page', page_size=(100, 100))
     reg = RegionLayout('r1', np.array([[0, 0], [90, 0], [90, 90], [0, 90]]))
-    for li, k in enumerate(kinds):
-        reg.lines.append(make_line(np, sparse, 'r1-l%03d' % li, k, engine + (li if mixed else 0)))
     pl.regions.append(reg)
+    for li, k in enumerate(kinds):
+        if split and li == 1:
+            # the same lines (same ids, same order) grouped into regions differently, as another layout analysis does
+            reg = RegionLayout('r2', np.array([[0, 0], [90, 0], [90, 90], [0, 90]]))
+            pl.regions.append(reg)
+        reg.lines.append(make_line(np, sparse, 'r1-l%03d' % li, k, engine + (li if mixed else 0)))
     return pl
 
 
@@ -99,8 +103,8 @@ def reference_confidence(np, line):
 
 def check_case(np, sparse, mor, engines_kinds, alias=None):
     """engines_kinds: tuple (per engine) of tuples (per line) of kinds. returns list of problems"""
-    layouts = [make_layout(np, sparse, ks, e, mixed=(alias == 'mixed')) for e, ks in enumerate(engines_kinds)]
-    if alias == 'mixed':
+    layouts = [make_layout(np, sparse, ks, e, mixed=(alias == 'mixed'), split=(alias == 'grouped' and e % 2 == 0)) for e, ks in enumerate(engines_kinds)]
+    if alias in ('mixed', 'grouped'):
         alias = None
     if alias == 'same':
         layouts = [layouts[0], layouts[0]]
@@ -200,6 +204,12 @@ def cases(thorough):
             cs.append((ek, 'mixed'))
     for ek in itertools.product([(k,) for k in KINDS], repeat=3):
         cs.append((ek, 'incremental'))
+    # engines that group the same lines into regions differently (the first and third split the page after the first line)
+    per_engine = list(itertools.product(KINDS, repeat=2))
+    for ek in itertools.product(per_engine, repeat=2):
+        cs.append((ek, 'grouped'))
+    for ek in itertools.product(per_engine[::5], repeat=3):
+        cs.append((ek, 'grouped'))
     for nl in (1, 2):
         for ks in itertools.product(KINDS, repeat=nl):
             cs.append(((ks,), 'same'))
